@@ -171,10 +171,10 @@ pub fn run(ctx: &Ctx) -> Result<Evidence, String> {
     dcfg.keys = gen::hostile_keys().into_iter().filter(|k| k.len() < 50).collect();
     let mut qcfg = gen::QueryCfg::default();
     qcfg.names = dcfg.keys.clone();
-    let n_rand_docs = ctx.tier.pick(300, 3000);
+    let n_rand_docs = ctx.tier.pick(300, 6000);
     let rdocs: Vec<Doc> = (0..n_rand_docs).map(|_| Doc::new(&gen::random_doc(&mut rng, &dcfg))).collect();
     let n_fixed = cases.len();
-    let n_rand = ctx.tier.pick(60_000, 1_500_000);
+    let n_rand = ctx.tier.pick(150_000, 40_000_000);
     let seed = ctx.seed;
 
     let acc = par_run(ctx, n_fixed + n_rand, |i, acc: &mut Acc| {
